@@ -27,6 +27,10 @@ from harness import common, dom, sel as selmod, tlc, trace
 
 _G = {}
 BARE = {'t': 'bare'}
+# open finding F18 (known_findings.txt): week "Y-W53" accepted for a 52-week year whose 31 December lies in
+# ISO week 1 of Y+1.  A failing case gets this key only when the observed answer equals the specification
+# evaluated with exactly that rule switched on (Calendar!CalClassOfK(f, TRUE) / CalLenientWeek53 <- TRUE).
+KNOWN_F18 = 'week53-accepted-when-dec31-in-week1'
 
 
 # ---------------------------------------------------------------------------
@@ -96,6 +100,7 @@ def _work(chunk):
         idmap = dom.ids_of(nodes)
         exp = [set(case['inr']), set(case['outr'])]
         opn = set(case['open'])
+        kcls = case['kcls']
         for s, (css, obj) in enumerate(_G['sels']):
             got, err = _membership(obj, container, nodes, idmap, n)
             if err:
@@ -104,7 +109,11 @@ def _work(chunk):
             for i in range(1, n + 1):
                 e = i in exp[s]
                 if got[i] != e:
-                    out.append((css, one_doc(d, i), 1, got[i], e, i not in opn, el_html(d, i), el_type(d, i)))
+                    # explained exactly by the open finding F18: the observed answer is the specification's
+                    # with the one rule "31 December in week 1 of the next year => week 53 accepted"
+                    kc = kcls[i - 1]
+                    known = kc != 'same' and isinstance(got[i], bool) and got[i] == (kc == ('in', 'out')[s])
+                    out.append((css, one_doc(d, i), 1, got[i], e, i not in opn, el_html(d, i), el_type(d, i), known))
                 if i not in opn:
                     ncmp += 1
         nontriv += len((exp[0] | exp[1]) - opn)
@@ -171,7 +180,7 @@ def report(chk, label, rec):
         chk.violation('%s|%s|doc' % (label, css), '%s %s: %s' % (label, css, got),
                       {'cfg': label, 'selector': css, 'doc': d1, 'observed': got, 'expected': exp})
         return
-    html, typ = rec[6], rec[7]
+    html, typ, known = rec[6], rec[7], rec[8]
     kind = 'raises' if isinstance(got, str) else 'membership'
     what = '%s %s on %s: %s, specification: %s' % (
         label, css, html, ('raises ' + got) if kind == 'raises' else ('selected' if got else 'not selected'),
@@ -186,7 +195,8 @@ def report(chk, label, rec):
         else:
             chk.drift.append(None)
         return
-    chk.violation('%s|%s' % (css, html), what,
+    key = KNOWN_F18 if (known and gated) else '%s|%s' % (css, html)
+    chk.violation(key, what,
                   {'cfg': label, 'selector': '%s type=%s %s' % (css, typ, kind), 'css': css, 'element': html,
                    'doc': d1, 'observed': got, 'expected': exp})
 
@@ -424,9 +434,10 @@ def rand_c18_selectors(rng):
 
 
 def _validate_one(args):
-    path, n = args
+    path, n = args[:2]
+    cfg = args[2] if len(args) > 2 else None
     try:
-        res = tlc.run('Trace_C18', workers=1, env={'TRACE_FILE': path}, timeout=3000, heap='1g')
+        res = tlc.run('Trace_C18', cfg=cfg, workers=1, env={'TRACE_FILE': path}, timeout=3000, heap='1g')
     except tlc.TLCError as e:
         return 0, 0, [], 0, str(e)[-1500:]
     rej, nopen = [], 0
@@ -473,6 +484,20 @@ def validate_trace(chk, lines, label, nbatches=16):
             chk.coverage['transitions'] += generated
             rejected += rej
             nopen += no
+        # classify the rejected events: accepted when the one rule of the open finding F18 is switched on?
+        explained = set()
+        if rejected:
+            rl = [l for l in lines if json.loads(l)['id'] in {r for r, _ in rejected}]
+            path = os.path.join(tmpd, 'rejected.ndjson')
+            with open(path, 'w') as f:
+                f.write('\n'.join(rl) + '\n')
+            distinct, generated, rej2, _no, err = _validate_one((path, len(rl), 'Trace_C18_known'))
+            if err:
+                chk.machinery('%s (variant pass): %s' % (label, err))
+            else:
+                chk.coverage['states'] += distinct
+                chk.coverage['transitions'] += generated
+                explained = {r for r, _ in rejected} - {r for r, _ in rej2}
     finally:
         for f in os.listdir(tmpd):
             os.remove(os.path.join(tmpd, f))
@@ -480,7 +505,7 @@ def validate_trace(chk, lines, label, nbatches=16):
     chk.count(len(lines) - nopen, traces=len(lines))
     for rid, exp in rejected:
         e = events.get(rid, {})
-        chk.violation('%s|%s|%s' % (label, e.get('css'), rid),
+        chk.violation(KNOWN_F18 if rid in explained else '%s|%s|%s' % (label, e.get('css'), rid),
                       '%s: recorded select(%r) = %r%s is not what the specification admits (%s)' % (
                           label, e.get('css'), e.get('res'), (' [' + e['exc'] + ']') if 'exc' in e else '', exp),
                       {'cfg': label, 'selector': e.get('css'), 'event': e, 'spec_expected': exp})
